@@ -47,7 +47,13 @@ let () =
       let line = input_line ic in
       match List.filter (fun s -> s <> "") (split ' ' line) with
       | "ring" :: toks ->
-        let ops = List.map ring_op toks in
+        (* "MT,i" (move_to) is a query followed by clear; its reported live count is the one after the clear *)
+        let mt_vars = ref [] in
+        let toks = List.concat_map (fun t -> match split ',' t with
+          | ["MT"; i] -> mt_vars := int_of_string i :: !mt_vars; ["MTQ," ^ i; "CL," ^ i]
+          | _ -> [t]) toks in
+        let ops = List.map (fun t -> match split ',' t with ["MTQ"; i] -> OQuery (nat_of_int (int_of_string i)) | _ -> ring_op t) toks in
+        let is_mtq = List.map (fun t -> match split ',' t with ["MTQ"; _] -> true | _ -> false) toks in
         let specinit = [SNone; SNone; SNone] in
         let v = valid specinit ops in
         let (s, outs) = run init_state ops in
@@ -55,10 +61,13 @@ let () =
         let b = Buffer.create 64 in
         (* stepwise replay to report the number of live element objects at every query *)
         let st = ref init_state in
-        List.iter (fun o -> let (s', out) = step !st o in st := s';
+        let pending = ref None in
+        List.iter2 (fun o mtq -> let (s', out) = step !st o in st := s';
+                    (match !pending with Some q -> Buffer.add_string b (show_out q); Buffer.add_string b (Printf.sprintf "live=%d " (int_of_nat (live_slots s'))); pending := None | None -> ());
                     match out with
-                    | Some q -> Buffer.add_string b (show_out q); Buffer.add_string b (Printf.sprintf "live=%d " (int_of_nat (live_slots s')))
-                    | None -> ()) ops;
+                    | Some q -> if mtq then pending := Some q
+                                else (Buffer.add_string b (show_out q); Buffer.add_string b (Printf.sprintf "live=%d " (int_of_nat (live_slots s'))))
+                    | None -> ()) ops is_mtq;
         ignore outs;
         Buffer.add_string b (if final_bad s then "final=bad" else "final=ok");
         if not v then Buffer.add_string b " INVALID-HISTORY";
